@@ -157,6 +157,7 @@ type Value struct {
 	L   []*Term
 	Loc *Loc     // set for interior / local pointers
 	Clo *Closure // set for concrete function values
+	Tab bool     // a function value looked up in a dispatch table of the package (closed set of callees)
 }
 
 type Closure struct {
